@@ -379,6 +379,43 @@ class Case:
     def lib_bcmp(self, st, i, args):
         return self.lib_memcmp(st, i, args)
 
+    def lib_strnlen(self, st, i, args):
+        p = self.cptr(st, args[0], 'strnlen argument')
+        n = self.cint(st, args[1], 'strnlen bound')
+        k = 0
+        while k < n:
+            v = self.rd(st, p, k, i)
+            if st.bottom:
+                return []
+            if self.zero_or_not(st, v, 'strnlen'):
+                break
+            k += 1
+        return [(st, mk_const(i.ty.get('bits', 64), k))]
+
+    def lib_strcpy(self, st, i, args, bound=None, pad=False):
+        """strcpy / strncpy by definition (strncpy pads with NUL up to n and does not terminate a longer source)"""
+        d, s = self.cptr(st, args[0], 'strcpy destination'), self.cptr(st, args[1], 'strcpy source')
+        k = 0
+        while bound is None or k < bound:
+            v = self.rd(st, s, k, i)
+            if st.bottom:
+                return []
+            self.wr(st, d, k, v, i)
+            if st.bottom:
+                return []
+            k += 1
+            if self.zero_or_not(st, v, 'strcpy'):
+                break
+        while pad and k < bound:
+            self.wr(st, d, k, mk_const(8, 0), i)
+            if st.bottom:
+                return []
+            k += 1
+        return [(st, d)]
+
+    def lib_strncpy(self, st, i, args):
+        return self.lib_strcpy(st, i, args, bound=self.cint(st, args[2], 'strncpy length'), pad=True)
+
     def lib_igris_i32toa(self, st, i, args):
         """igris_i32toa(num, buf, base) by definition for base 10 (the renderer itself is the subject of C07): the decimal
         digits, the terminator, result = address of the terminator"""
@@ -400,6 +437,8 @@ class Case:
         self.it.stack = [(self.fn.name, 'entry')]
         rets = self.it.run_function(self.fn, self.st, list(args))
         self.it.stack = []
+        if self.it.unknown_calls:
+            raise AnalysisBroken('%s [%s]: call(s) with unknown effects: %s' % (self.fname, self.label, sorted(self.it.unknown_calls)))
         for ob in self.it.obligs.values():
             if not ob.ok and not self.faults:
                 self.faults.append(ob.detail or ob.kind)
@@ -1211,14 +1250,47 @@ def readline_rules(rep, repo, caps):
 
 
 # ----------------------------------------------------------------------------------------------------------------------
+EXPLANATION = (
+    ' CONTENT (c15_content.py): every sline / readline function and the vterm automaton are interpreted in small concrete '
+    'configurations (line capacity 4..8, every length and cursor position; history depth 1..3, every write index and browse '
+    'index, two patterns of stored line lengths) in which every byte of the line, of the history and of the arguments is '
+    'its own symbol; mem*/str* calls are summarised by their definition on the cells.  Decided at every return, as equality '
+    'of symbol sequences with a reference built by list surgery: sline_putchar / newdata insert at the cursor (as much as '
+    'fits), backspace / delete remove exactly the clamped n characters before / at the cursor, left / right and the '
+    'accessors leave the text alone, getline terminates it, sline_equal is true exactly for the same text (R-TEXT); the push '
+    'functions store exactly the line and a terminator into slot headhist and advance it modulo the depth, recall brings '
+    'back exactly the line of slot (headhist - curhist) mod depth with the cursor at its end, position 0 is the empty line '
+    '(R-HISTORY); per key of readline_putchar the same text surgery, CR / LF stores a non-empty line that differs from the '
+    'most recent entry exactly once, nothing for an empty or repeated line, the second half of a CR LF pair or without a '
+    'history (R-KEYTEXT); the bytes vterm hands to the write callback, replayed on a VT100 line model, leave the screen '
+    'showing prompt + line with the cursor at the editor cursor after every key (R-SCREEN), the execute callback receives '
+    'exactly the line, its length and a terminator (R-EXECUTE).  Not decided: capacities beyond the analysed ones (the code '
+    'is uniform in the capacity, the clauses of R-SLINE / R-READLINE are symbolic in it), the C++ twins.')
+
+
 def run_ext(rep, repo, tier):
-    agg = sline_rules(rep, repo, CAPS_QUICK)
+    thorough = tier == 'thorough'
+    rep.explanation = (rep.explanation or '') + EXPLANATION
+    rep.assumptions += ['content clauses: the characters of a line are not NUL and occupy one screen column each',
+                        'content clauses: memmove/memcpy/memset/strlen/strncmp/strcmp/memcmp behave as ISO C defines them '
+                        '(the implementations in compat/libc are the subject of C08); igris_i32toa renders base 10 (C07)']
+    agg = sline_rules(rep, repo, CAPS_QUICK + ((9, 12) if thorough else ()))
     rep.units.append('witness/w_sline.c -> igris/datastruct/sline.h (content clauses, concrete configurations)')
-    rep.floor('R-TEXT', 60)
+    rep.floor('R-TEXT', 90)
     rep.extra.setdefault('content', {})['sline_configurations'] = agg.cases
-    hist, keys = readline_rules(rep, repo, CAPS_HIST)
+    caps = CAPS_HIST + ((6,) if thorough else ())
+    hist, keys = readline_rules(rep, repo, caps)
     rep.units.append('witness/w_readline.c -> igris/shell/readline.h (content clauses, concrete configurations)')
-    rep.floor('R-HISTORY', 40)
-    rep.floor('R-KEYTEXT', 60)
+    rep.floor('R-HISTORY', 90)
+    rep.floor('R-KEYTEXT', 150)
     rep.extra['content']['history_configurations'] = hist.cases
     rep.extra['content']['key_configurations'] = keys.cases
+    from c15_content_vt import vterm_rules
+    scr, exe = vterm_rules(rep, repo, caps)
+    rep.units.append('igris/shell/vterm.c (terminal output replayed on a VT100 line model, concrete configurations)')
+    rep.floor('R-SCREEN', 80)
+    rep.floor('R-EXECUTE', 3)
+    rep.extra['content']['vterm_configurations'] = scr.cases
+    for name, a, least in (('R-TEXT', agg, 3000), ('R-HISTORY', hist, 2000), ('R-KEYTEXT', keys, 2000), ('R-SCREEN', scr, 700)):
+        if a.cases < least and not ONLY:
+            raise AnalysisBroken('%s: only %d configurations were analysed (floor %d)' % (name, a.cases, least))
